@@ -55,6 +55,8 @@ def gfa_text(segs, walks, rnd=None):
 
 def cigar_for(L):
     a = (L + 1) // 2
+    if L % 3 == 2 and L - a:      # a CIGAR is a list of any of M I D N S H P = X: clips, a skipped region, padding
+        return f"1S{a}=3N1P{L - a}X2H", a
     return (f"{a}=" if a else "") + (f"{L - a}X" if L - a else ""), a
 
 
@@ -80,6 +82,8 @@ def proj(line):
         "strand": r["strand"], "path": r["path"], "plen": r["plen"], "ps": r["ps"], "pe": r["pe"], "cigar": r["cigar"],
         "keep": [c[0], c[1], c[2], c[3], c[9], c[10], c[11]],
         "opt": [":".join(t) for t in r["opt"] if not (t[0] == "cg" and t[1] == "Z")],
+        # where the CIGAR stands among the optional fields (0 = none): an exact round trip keeps it there
+        "cgpos": ([k + 1 for k, t in enumerate(r["opt"]) if t[0] == "cg" and t[1] == "Z"] or [0])[0],
     }
 
 
